@@ -5,7 +5,11 @@
    function ("propagating call", recognised by name), what is done with its Result.  Data is abstracted away:
    how often a loop runs, which branch is taken and what a call is dispatched to (the target itself / a foreign
    callee = a leaf, or ANY translated function of that name) is read from an oracle [orc], the same in the
-   fault-free and in the faulted run (control decisions never look at the Ok value of a target call: it is ()). *)
+   fault-free and in the faulted run: control decisions never depend on what the target answers.  The Ok value of the
+   DrawTarget methods is (); draw_string / draw_string_binary / draw_whitespace / Text::draw return a Point that IS
+   branched on (mono_text_style.rs `if next.x > position.x`), but it is computed from the text and the font only.
+   An event records (callee name, call site); the ARGUMENTS of a call are not modelled - that the faulted run passes
+   the same arguments as the fault-free run is determinism of the Rust code, checked by the sweep p_errflow only. *)
 From Coq Require Import String List Arith Bool.
 Import ListNotations.
 
@@ -209,3 +213,22 @@ Arguments log {E} s. Arguments orc {E} s. Arguments pend {E} s.
 
 Definition find_fn (fs : list fndef) (name place_prefix : string) : option fndef :=
   find (fun f => String.eqb (fname f) name && String.prefix place_prefix (fwhere f)) fs.
+
+(* ------------------------------------------------------------------ helpers for the table checks of Properties/C04.v *)
+Definition in_file (file : string) (f : fndef) : bool := String.prefix (file ++ ":") (fwhere f).
+Definition sites_in_file (fs : list fndef) (file : string) : nat :=
+  fold_right (fun f n => (if in_file file f then sk_calls (fbody f) else 0) + n) 0 fs.
+Definition total_sites (fs : list fndef) : nat := fold_right (fun f n => sk_calls (fbody f) + n) 0 fs.
+
+(* oracle value that dispatches a call of [name] to the first translated function of that name whose place
+   (file:line impl header) contains [pat] (S of its index among the candidates; 0 = the underlying target, also
+   when there is no such function) *)
+Fixpoint index_where {A} (p : A -> bool) (l : list A) : option nat :=
+  match l with
+  | [] => None
+  | a :: r => if p a then Some 0 else match index_where p r with Some i => Some (S i) | None => None end
+  end.
+Definition place_has (pat : string) (f : fndef) : bool :=
+  match String.index 0 pat (fwhere f) with Some _ => true | None => false end.
+Definition dispatch_to (fs : list fndef) (name pat : string) : nat :=
+  match index_where (place_has pat) (candidates fs name) with Some i => S i | None => 0 end.
